@@ -11,6 +11,51 @@ type EqOpt struct {
 	UserMethods bool
 	// RootToo: apply the delegation rule at the root as well.
 	RootToo bool
+	// CopiedKeys: the keys of a map whose key type holds pointers are matched by their contents, not by Go's own
+	// key equality (which is pointer identity): this is what "structurally equal" means between a value and a
+	// deep copy of it, whose keys are fresh pointers.
+	CopiedKeys bool
+}
+
+// HoldsPointer reports whether values of the (map key) type contain a pointer.
+func HoldsPointer(t reflect.Type) bool {
+	switch t.Kind() {
+	case reflect.Ptr, reflect.Interface, reflect.Chan, reflect.UnsafePointer:
+		return true
+	case reflect.Array:
+		return HoldsPointer(t.Elem())
+	case reflect.Struct:
+		for i := 0; i < t.NumField(); i++ {
+			if HoldsPointer(t.Field(i).Type) {
+				return true
+			}
+		}
+	}
+	return false
+}
+
+// eqMapByContents pairs the entries of a with the entries of b, two entries matching when key and value are
+// structurally equal. Structural equality is an equivalence, so pairing greedily decides it.
+func eqMapByContents(a, b reflect.Value, o EqOpt) bool {
+	bk := b.MapKeys()
+	taken := make([]bool, len(bk))
+	it := a.MapRange()
+	for it.Next() {
+		found := false
+		for j, k := range bk {
+			if taken[j] {
+				continue
+			}
+			if eq(it.Key(), k, o, false) && eq(it.Value(), b.MapIndex(k), o, false) {
+				taken[j], found = true, true
+				break
+			}
+		}
+		if !found {
+			return false
+		}
+	}
+	return true
 }
 
 // Eq is structural equality exactly as property C02 states it: same nil-ness at every pointer,
@@ -245,6 +290,9 @@ func eq(a, b reflect.Value, o EqOpt, root bool) bool {
 		if a.Len() != b.Len() {
 			return false
 		}
+		if o.CopiedKeys && HoldsPointer(t.Key()) {
+			return eqMapByContents(a, b, o)
+		}
 		it := a.MapRange()
 		for it.Next() {
 			bv := b.MapIndex(it.Key()) // Go's own key equality
@@ -379,6 +427,12 @@ func FirstDiff(a, b reflect.Value) string {
 		}
 		if a.Len() != b.Len() {
 			return "len:map"
+		}
+		if HoldsPointer(a.Type().Key()) {
+			if eqMapByContents(a, b, EqOpt{CopiedKeys: true}) {
+				return ""
+			}
+			return "map:pointer-keys"
 		}
 		for _, k := range sortedKeys(a) {
 			bv := b.MapIndex(k)
